@@ -189,6 +189,11 @@ where
                                     &shutdown_coordinator,
                                 );
                             }
+                            // Give the connections we just picked up a chance to start reading
+                            // their request before we signal the shutdown: a connection that is
+                            // told to shut down before it has ever been polled is closed by
+                            // `hyper` without looking at the request that is waiting on the socket.
+                            tokio::task::yield_now().await;
 
                             // Wait for all live connections to be closed or for the timeout to expire.
                             let _ = tokio::time::timeout(timeout, shutdown_coordinator.shutdown())
